@@ -1037,7 +1037,7 @@ def run(ctx):
     ctx.log("created() granularity %.2f ms -> gap %.1f ms" % (gran / 1e6, gap_ms))
 
     rng = ctx.rng
-    nx, ns, nr, nm = (150, 150, 50, 10) if not ctx.thorough() else (600, 600, 250, 30)
+    nx, ns, nr, nm = (120, 120, 40, 10) if not ctx.thorough() else (600, 600, 250, 30)
     cases = load_corpus(ctx, yield0)
     ncorp = len(cases)
     cases += [gen_case_x(rng, "x%d" % i) for i in range(nx)]
